@@ -25,6 +25,7 @@ def dip_stub_entries():
         ('scinumtools.dip.nodes.node_base', 'int', stubs.Int),
         ('scinumtools.dip.nodes.node_base', 'bool', stubs.Bool),
         ('scinumtools.solver.atom', 'float', stubs.Float),
+        ('scinumtools.dip.solvers.logical_solver', 'bool', stubs.Bool),
     ]
 
 
